@@ -35,6 +35,10 @@ FAN = [
     # registration changes made from INSIDE the global close callback take effect before the observer phase
     "8 | io=accept:1,waitflag:s,close:1 ; main=observe:1:o1,observe:1:o2,observe:1:o3,setdata:1:d1,setflag:s ; gcb=unobserve:o2,observe:1:o4",
     "8 | io=accept:1,accept:2,waitflag:s,close:1,close:2 ; main=observe:1:o1,observe:2:p1,setflag:s ; gcb=unobserve:o1,unobserve:p1,observe:2:p2 ; a=waitflag:s,observe:2:p3",
+    # nothing is delivered after the close: bytes left unread by a Sync phase stay with late synchronous readers, a switch to
+    # Async after (or racing) the close must not hand them to the data callback once the close is through
+    "8 | io=accept:1,waitflag:s,data:1:3,close:1,setflag:d ; main=observe:1:o1,setdata:1:d1,mode:1:sync,setflag:s,waitflag:d,mode:1:async,recv:1:8:200",
+    "8 | io=accept:1,waitflag:s,data:1:3,setflag:d,close:1 ; main=observe:1:o1,observe:1:o2,mode:1:sync,setflag:s,waitflag:d,mode:1:async ; a=waitflag:d,unobserve:o1,mode:1:async",
 ]
 
 LIFE = [
@@ -116,7 +120,7 @@ def run(ck):
         for k in range(nsched):
             lines.append("%s | random %d" % (p, ck.seed * 31337 + i * 977 + k))
     tc.run_cases(ck, lines, "fanout", nontrivial)
-    for j, p in enumerate(FAN[:2] if not thorough else FAN):
+    for j, p in enumerate(FAN[:2] + FAN[-1:] if not thorough else FAN):
         tc.run_dfs(ck, p, 2 if thorough else 1, 30000 if thorough else 1500, "dfs%d" % j, nontrivial)
     # real engines under the scheduler
     kw = dict(drv=tc.ENGINE_DRV, spec="EngineTrace")
